@@ -512,7 +512,7 @@ def run(ctx: Any, prog: Program) -> None:
     dmx = prog.module('dmx')
     fold = Folder(prog, dmx)
     em = dmx.methods('Element')
-    ctx.not_decided += ['graph isomorphism (sharing, cycles) and UUID fix-ups', 'float text precision', 'KV1 bridge equality beyond its constants', 'legacy (version 0) header']
+    ctx.not_decided += ['graph isomorphism (sharing, cycles) and UUID fix-ups', 'float text precision beyond the 6-decimal formatter', 'KV1 bridge equality beyond its constants', 'legacy (version 0) header']
     ctx.rule('C14.X1', 'every (type, shape) code written is classified back to the same (type, shape) by the reader', floor=28)
     ctx.rule('C14.X2', 'string-table formats per version and the TIME/version-3 gate agree between reader and writer', floor=8)
     ctx.rule('C14.X3', 'binary token sequences (slots, terminated strings with encoding, byte runs, reference sentinels) agree per version, type and shape', floor=100)
@@ -606,6 +606,29 @@ def run(ctx: Any, prog: Program) -> None:
                 undecided = '[' in rs or '[' in ws
                 ctx.check('C14.X3', rs == ws and not undecided, dmx, eb, f'{label}: the reader consumes `{rs}` but the writer produces `{ws}`' + (' (undecided gate)' if undecided else ''),
                           func='Element.export_binary', text=label)
+    # ---- X10: float components in text ----------------------------------------------------------------------------------------------
+    # KV2 text carries floats to 6 decimals (_fmt_float: '.6f' without trailing zeros).  The converters for the float-vector types are siblings:
+    # every component of every one of them goes through _fmt_float - a format spec such as ':.6g' keeps 6 *significant* digits instead.
+    ctx.rule('C14.X10', 'the to-string converters of the float vector types format every component with _fmt_float', floor=15)
+    FLOAT_VEC_CONVERTERS = ('_conv_vec2_to_string', '_conv_vec3_to_string', '_conv_vec4_to_string', '_conv_angle_to_string', '_conv_quaternion_to_string')
+    for cname in FLOAT_VEC_CONVERTERS:
+        cf = dmx.func(cname)
+        prm = cf.args.args[0].arg
+        rets_ = [r.value for r in walk_no_nested(cf) if isinstance(r, ast.Return) and r.value is not None]
+        ctx.shape('C14.X10', len(rets_) == 1 and isinstance(rets_[0], ast.JoinedStr), dmx, cf, f'{cname} returns one f-string', func=cname, text=f'{cname} shape')
+        if len(rets_) != 1 or not isinstance(rets_[0], ast.JoinedStr):
+            continue
+        for fv in [v for v in rets_[0].values if isinstance(v, ast.FormattedValue)]:
+            ok_ = isinstance(fv.value, ast.Call) and dotted(fv.value.func) == '_fmt_float' and len(fv.value.args) == 1 and isinstance(fv.value.args[0], ast.Attribute) \
+                and dotted(fv.value.args[0].value) == prm and fv.format_spec is None and fv.conversion == -1
+            comp = fv.value.args[0].attr if isinstance(fv.value, ast.Call) and fv.value.args and isinstance(fv.value.args[0], ast.Attribute) else (fv.value.attr if isinstance(fv.value, ast.Attribute) else '?')
+            ctx.check('C14.X10', ok_, dmx, fv, f'{cname} writes component `{comp}` as `{U(fv)[:40]}` instead of _fmt_float({prm}.{comp}): the text then does not carry the value to 6 decimals '
+                      "(':.6g' keeps 6 significant digits - 1048.515625 becomes 1048.52)", func=cname, text=f'{cname}: {comp} through _fmt_float')
+    ff = dmx.func('_fmt_float')
+    fmt_calls = [c for c in ast.walk(ff) if isinstance(c, ast.Call) and dotted(c.func) == 'format' and len(c.args) == 2 and isinstance(c.args[1], ast.Constant)]
+    ctx.shape('C14.X10', len(fmt_calls) == 1, dmx, ff, "_fmt_float formats with format(x, '<spec>')", func='_fmt_float', text='_fmt_float precision')
+    if len(fmt_calls) == 1:
+        ctx.check('C14.X10', fmt_calls[0].args[1].value == '.6f', dmx, fmt_calls[0], f"_fmt_float uses the format {fmt_calls[0].args[1].value!r}; KV2 text carries 6 decimals ('.6f')", func='_fmt_float', text='_fmt_float precision')
     # ---- X9: zero is a valid index -------------------------------------------------------------------------------------------
     # tables whose values are positions (`{key: 0}`, `tbl[k] = len(seq)`, enumerate indexes): `tbl.get(k)` is falsy for the entry at
     # position 0 - in export_binary that entry is the root element, which then looks unseen and is written a second time
@@ -886,6 +909,7 @@ def run(ctx: Any, prog: Program) -> None:
 
 
 MUTANTS: List[Dict[str, Any]] = [
+    {'id': 'vec4_text_six_significant_digits', 'file': 'dmx.py', 'find': "    return f'{_fmt_float(v.x)} {_fmt_float(v.y)} {_fmt_float(v.z)} {_fmt_float(v.w)}'", 'replace': "    return f'{v.x:.6g} {v.y:.6g} {v.z:.6g} {v.w:.6g}'", 'expect': 'C14.X10'},
     {'id': 'root_index_zero_taken_for_missing', 'file': 'dmx.py', 'find': "                        if not isinstance(subelem, StubElement) and subelem.uuid not in elem_to_ind:", 'replace': "                        if not isinstance(subelem, StubElement) and not elem_to_ind.get(subelem.uuid):", 'expect': 'C14.X9'},
     {'id': 'matrix_text_rows_are_columns', 'file': 'dmx.py', 'find': "    return (\n        f'{mat[0, 0]} {mat[0, 1]} {mat[0, 2]} 0.0\\n'\n        f'{mat[1, 0]} {mat[1, 1]} {mat[1, 2]} 0.0\\n'\n        f'{mat[2, 0]} {mat[2, 1]} {mat[2, 2]} 0.0\\n'\n        '0.0 0.0 0.0 1.0'\n    )", 'replace': "    rows = [' '.join([str(mat[x, y]) for x in range(3)]) + ' 0.0' for y in range(3)]\n    rows.append('0.0 0.0 0.0 1.0')\n    return '\\n'.join(rows)", 'expect': 'C14.X4'},
     {'id': 'matrix_text_rows_by_comprehension', 'file': 'dmx.py', 'find': "    return (\n        f'{mat[0, 0]} {mat[0, 1]} {mat[0, 2]} 0.0\\n'\n        f'{mat[1, 0]} {mat[1, 1]} {mat[1, 2]} 0.0\\n'\n        f'{mat[2, 0]} {mat[2, 1]} {mat[2, 2]} 0.0\\n'\n        '0.0 0.0 0.0 1.0'\n    )", 'replace': "    rows = [' '.join([str(mat[y, x]) for x in range(3)]) + ' 0.0' for y in range(3)]\n    rows.append('0.0 0.0 0.0 1.0')\n    return '\\n'.join(rows)", 'expect': None},
